@@ -79,13 +79,18 @@ def poison_hook(kind):
             ch.basic_publish("", q + "-i1", "{not json", props("poison-9"))
         elif kind == "reply-queue":
             ch.basic_publish("", "asl_workflow_reply_to-i1", b"\xff\xfe", fakepika.BasicProperties(correlation_id="nobody"))
+        elif kind in ("reply-twice", "reply-thrice"):
+            # replies nobody waits for (yet), several with the same correlation id (a worker that answered, died before acknowledging its request and
+            # answered again): each of them is a delivery that has to be acknowledged in the end
+            for j in range(2 if kind == "reply-twice" else 3):
+                ch.basic_publish("", "asl_workflow_reply_to-i1", json.dumps({"answer": j}), fakepika.BasicProperties(correlation_id="nobody-yet", content_type="application/json"))
     return hook
 
 
 def run(ctx):
     n_cases = ctx.pick(200, 3000)
     n_random = ctx.pick(3, 12)
-    poisons = ["nonjson", "nocontext", "unknown-machine", "array", "nostatemachine", "nonutf8", "badbytes", "empty", "instance-queue", "reply-queue"]
+    poisons = ["nonjson", "nocontext", "unknown-machine", "array", "nostatemachine", "nonutf8", "badbytes", "empty", "instance-queue", "reply-queue", "reply-twice", "reply-thrice"]
     for k in range(n_cases):
         if not ctx.mine(k):
             continue
